@@ -68,6 +68,13 @@ def main(argv=None):
     ap.add_argument('--only', help='debug: only units whose name contains this substring (evidence not written)')
     a = ap.parse_args(argv)
     prop = a.prop
+    # No cyclic garbage collection in THIS process.  While the worker pool exists, multiprocessing runs three helper threads in it; a
+    # collection triggered by one of them finalises z3 objects (Z3_dec_ref) from that thread while the main thread is inside libz3
+    # building the next formula - libz3 is not thread-safe, and the heap corruption showed up as rare exits 134 / 139 (malloc abort,
+    # crash in Z3_del_context at exit) of checks that had already printed their verdict.  Reference counting still frees everything
+    # that is not in a cycle, the process is short-lived, and the (single-threaded) workers switch the collector back on.
+    import gc
+    gc.disable()
     seed = int(os.environ.get('VERIF_SEED', '0') or 0)
     t0 = time.time()
     try:
@@ -109,4 +116,13 @@ def main(argv=None):
 
 
 if __name__ == '__main__':
-    sys.exit(main())
+    _code = main()
+    # Leave without running the interpreter's finalisers: everything the check produces (verdict lines, evidence, replay files) has been
+    # written and closed by now, and tearing down native libraries (libz3 contexts, scipy thread pools, logging handlers the code under
+    # test installed) at interpreter exit is the one place where a crash could still turn a finished verdict into exit 139.
+    try:
+        sys.stdout.flush()
+        sys.stderr.flush()
+    except Exception:
+        pass
+    os._exit(_code if isinstance(_code, int) else 1)
